@@ -444,9 +444,31 @@ func c05Kind(c *Ctx, r *Report) {
 		r.fnSeen("IsLocation")
 		for _, b := range isLoc.Blocks {
 			for _, in := range b.Instrs {
-				if st, ok := in.(*ssa.Store); ok {
-					if s, ok := constStr(st.Val); ok {
+				switch t := in.(type) {
+				case *ssa.Store:
+					if s, ok := constStr(t.Val); ok {
 						known[s] = true
+					}
+				case *ssa.BinOp:
+					// a switch or an if-chain over the constants
+					if t.Op == token.EQL {
+						if s, ok := constStr(t.Y); ok {
+							known[s] = true
+						}
+						if s, ok := constStr(t.X); ok {
+							known[s] = true
+						}
+					}
+				case *ssa.Lookup:
+					// membership in a package-level set declared with a literal and written nowhere else
+					if u, ok := t.X.(*ssa.UnOp); ok && u.Op == token.MUL {
+						if g, ok := u.X.(*ssa.Global); ok {
+							if tab, ok := c.globalMapLit(g); ok {
+								for k := range tab {
+									known[k] = true
+								}
+							}
+						}
 					}
 				}
 			}
